@@ -338,6 +338,7 @@ type Contract struct {
 	Inline     bool
 	NoOverflow bool
 	Extern     bool
+	ExtKey     bool
 	Pure       bool // no heap effect at all (modifies nothing) and result determined
 	Lemma      bool
 	IfaceMeth  string // for "interface pkg.I.M" contracts
@@ -367,7 +368,7 @@ func NewContractSet() *ContractSet {
 var clauseKeywords = map[string]bool{
 	"requires": true, "ensures": true, "modifies": true, "invariant": true, "decreases": true,
 	"panics": true, "mode": true, "trusted": true, "inline": true, "loop": true, "func": true,
-	"extern": true, "spec": true, "property": true, "pure": true, "lemma": true, "noeffect": true,
+	"extern": true, "extfunc": true, "spec": true, "property": true, "pure": true, "lemma": true, "noeffect": true,
 	"opt": true, "interface": true,
 }
 
@@ -467,11 +468,12 @@ func (cs *ContractSet) ParseFile(path string, pkgPath string) error {
 				}
 				eq = eq + 2 + n
 			}
-			if eq < 0 {
-				return fmt.Errorf("%s:%d: bad spec", path, line)
+			hdr := strings.TrimSpace(text)
+			body := ""
+			if eq >= 0 {
+				hdr = strings.TrimSpace(text[:eq])
+				body = strings.TrimSpace(text[eq+1:])
 			}
-			hdr := strings.TrimSpace(text[:eq])
-			body := strings.TrimSpace(text[eq+1:])
 			_, _, name, params, _, err := parseHeader("func " + hdr)
 			if err != nil {
 				return fmt.Errorf("%s:%d: bad spec header %q: %v", path, line, hdr, err)
@@ -495,19 +497,23 @@ func (cs *ContractSet) ParseFile(path string, pkgPath string) error {
 				r := fd.Type.Results.List[0]
 				ret = src[r.Type.Pos()-1 : r.Type.End()-1]
 			}
-			e, err := parseSpecExpr(body)
-			if err != nil {
-				return fmt.Errorf("%s:%d: %v", path, line, err)
+			var e SExpr
+			if body != "" {
+				var err error
+				e, err = parseSpecExpr(body)
+				if err != nil {
+					return fmt.Errorf("%s:%d: %v", path, line, err)
+				}
 			}
 			sf := &SpecFunc{Name: name, Params: svars, Ret: ret, Body: e, Text: body, Pkg: pkgPath}
 			cs.Specs[pkgPath+"."+name] = sf
 			if _, dup := cs.Specs[name]; !dup {
 				cs.Specs[name] = sf
 			}
-		case "func", "extern", "lemma", "interface":
+		case "func", "extern", "extfunc", "lemma", "interface":
 			c := &Contract{File: path, Line: line, Pkg: pkgPath, Props: curProps, Loops: map[int]*LoopSpec{}, Mode: "int", Panics: "abort", Opts: map[string]string{}}
 			hdr := text
-			if kw == "extern" || kw == "interface" {
+			if kw == "extern" || kw == "interface" || kw == "extfunc" {
 				// extern <key> func(params) results
 				i := strings.Index(text, " func")
 				if i < 0 {
@@ -515,8 +521,9 @@ func (cs *ContractSet) ParseFile(path string, pkgPath string) error {
 				}
 				c.Key = strings.TrimSpace(text[:i])
 				hdr = "func x" + strings.TrimSpace(text[i+5:])
-				c.Extern = true
-				c.Trusted = true
+				c.Extern = kw != "extfunc"
+				c.Trusted = kw != "extfunc"
+				c.ExtKey = true
 				if kw == "interface" {
 					c.IfaceMeth = c.Key
 				}
@@ -527,7 +534,7 @@ func (cs *ContractSet) ParseFile(path string, pkgPath string) error {
 			if err != nil {
 				return fmt.Errorf("%s:%d: bad header %q: %v", path, line, hdr, err)
 			}
-			if !c.Extern {
+			if !c.ExtKey {
 				if rt != "" {
 					if rp {
 						c.Key = "(*" + pkgPath + "." + rt + ")." + name
